@@ -13,6 +13,7 @@ class FFuture:
         self.kwargs = kwargs or {}
         self.done_ = done
         self.value = value
+        self.error = None
         self.key = "f%d" % self.id
 
     def __repr__(self):
@@ -61,7 +62,14 @@ class FakeClient:
         return [t for t in self.tasks if not t.done_ and all(d.done_ for d in walk((t.args, t.kwargs)))]
 
     def complete(self, t):
-        t.value = t.fn(*resolve(list(t.args)), **resolve(t.kwargs))
+        deps = [d for d in walk((t.args, t.kwargs)) if getattr(d, "error", None) is not None]
+        if deps:
+            t.error = deps[0].error          # a failed dependency fails the task, as on a cluster
+        else:
+            try:
+                t.value = t.fn(*resolve(list(t.args)), **resolve(t.kwargs))
+            except Exception as e:   # noqa
+                t.error = e
         t.done_ = True
         self._wake()
 
@@ -71,7 +79,11 @@ class FakeClient:
             if all(n.done_ for n in needed):
                 self.waiters.remove(w)
                 if not fut.done():
-                    fut.set_result(resolve(payload))
+                    bad = [n for n in needed if getattr(n, "error", None) is not None]
+                    if bad:
+                        fut.set_exception(bad[0].error)
+                    else:
+                        fut.set_result(resolve(payload))
 
     def scatter(self, data, asynchronous=True, hash=False, **kw):
         self.calls.append(("scatter", hash))
